@@ -314,6 +314,7 @@ def _run_stream_init_sync(
                 app._token_key,
                 auth,
                 stream_id,
+                method_name=method_name,
             )
             # Warm the cache with the objects we already hold, so this stream's
             # first continuation does not have to open the token it was just
@@ -321,7 +322,7 @@ def _run_stream_init_sync(
             app._call_state_cache.put(
                 call_id,
                 auth,
-                _ResolvedCall(result.call_state, result.output_schema, result.input_schema, stream_id),
+                _ResolvedCall(result.call_state, result.output_schema, result.input_schema, stream_id, method_name),
                 time.time(),
             )
 
@@ -539,7 +540,7 @@ def _run_stream_exchange_sync(
             resolved_call,
             call_id,
             request_state_bytes,
-        ) = _unpack_and_recover_state(app, token, call_token, state_info, auth)
+        ) = _unpack_and_recover_state(app, token, call_token, state_info, auth, method_name)
         output_schema = resolved_call.output_schema
         input_schema = resolved_call.input_schema
         stream_id = resolved_call.stream_id
@@ -1148,6 +1149,7 @@ def _unpack_and_recover_state(
     call_token: bytes | None,
     state_info: _StateInfo,
     auth: AuthContext | None,
+    method_name: str,
 ) -> tuple[StreamState, _ResolvedCall, bytes, bytes]:
     """Open a cursor token, resolve its call, and rebuild the state object.
 
@@ -1165,6 +1167,12 @@ def _unpack_and_recover_state(
     token is opened and verified, and its embedded ``call_id`` must match
     the one the cursor named.
 
+    The call is resolved *for the method being called*: a cached entry is
+    used only if it was recorded for this method, and the call token's AAD
+    names the method whose ``/init`` minted it.  Tokens minted by another
+    method therefore never resolve here, and the request is refused before
+    any state is deserialized or rehydrated.
+
     Args:
         app: The HTTP app providing the AEAD key, TTL, cache, and server
             implementation.
@@ -1176,6 +1184,8 @@ def _unpack_and_recover_state(
             concrete class is resolved from the numeric tag embedded in
             ``state_bytes``.
         auth: Authenticated identity for the current request.
+        method_name: The stream method whose ``/exchange`` route received the
+            request.
 
     Returns:
         ``(state_object, resolved_call, call_id, state_bytes)``.
@@ -1196,8 +1206,13 @@ def _unpack_and_recover_state(
 
     now = time.time()
     resolved = app._call_state_cache.get(call_id, auth, now)
+    if resolved is not None and resolved.method_name != method_name:
+        # The cursor names a call that belongs to another method.  Never serve
+        # that entry here: fall through to the call token, which only opens if
+        # this method minted it — the same answer a cold cache would give.
+        resolved = None
     if resolved is None:
-        resolved = _resolve_call_from_token(app, call_token, call_id, state_info, auth)
+        resolved = _resolve_call_from_token(app, call_token, call_id, state_info, auth, method_name)
         app._call_state_cache.put(call_id, auth, resolved, now)
 
     if resolved.stream_id:
@@ -1238,6 +1253,7 @@ def _resolve_call_from_token(
     expected_call_id: bytes,
     state_info: _StateInfo,
     auth: AuthContext | None,
+    method_name: str,
 ) -> _ResolvedCall:
     """Open a client-supplied call token — the cache-miss path.
 
@@ -1248,6 +1264,8 @@ def _resolve_call_from_token(
         state_info: The method's state class (or union tuple), which
             declares the call-state type to deserialize into.
         auth: Authenticated identity for the current request.
+        method_name: The method being called; the token only opens if this is
+            the method whose ``/init`` minted it.
 
     Returns:
         The parsed :class:`_ResolvedCall`.
@@ -1271,7 +1289,7 @@ def _resolve_call_from_token(
         input_schema_bytes,
         token_call_id,
         stream_id,
-    ) = _open_call_token(call_token, app._token_key, _compute_call_aad(auth), app._token_ttl)
+    ) = _open_call_token(call_token, app._token_key, _compute_call_aad(auth, method_name), app._token_ttl)
     # Constant-time compare: the ids are both server-minted and already
     # authenticated, so this is belt-and-braces against a client pairing two
     # of its own tokens from different streams.
@@ -1313,4 +1331,4 @@ def _resolve_call_from_token(
                 status_code=HTTPStatus.BAD_REQUEST,
             ) from exc
 
-    return _ResolvedCall(call_state, output_schema, input_schema, stream_id)
+    return _ResolvedCall(call_state, output_schema, input_schema, stream_id, method_name)
